@@ -36,8 +36,8 @@ RNA_COMP = dict(zip("ACGURYMKBVDHWSN-?", "UGCAYRKMVBHDWSN-?"))
 
 def bounds(tier):
     return {
-        "quick": {"max_parent_len": 4, "steps": [1, 2, -1, -2], "depth": 2, "offsets": [0, 3], "content_parent": "A-NGT", "content_depth": 2},
-        "thorough": {"max_parent_len": 6, "steps": [1, 2, 3, -1, -2, -3], "depth": 3, "offsets": [0, 3], "content_parent": "AC-NGT?A", "content_depth": 2},
+        "quick": {"max_parent_len": 4, "steps": [1, 2, 3, -1, -2, -3], "depth": 2, "offsets": [0, 3], "content_parent": "A-NGT", "content_depth": 2},
+        "thorough": {"max_parent_len": 5, "steps": [1, 2, 3, -1, -2, -3], "depth": 3, "offsets": [0, 3], "content_parent": "AC-NGT?A", "content_depth": 2},
     }[tier]
 
 
